@@ -114,7 +114,7 @@ ReplyWithinSender ==
     [][IsReqStep /\ Line.verdict = "ok" /\ Valid(MsgOf(Line)) =>
         LET m == MsgOf(Line) IN
         CASE m.p = "ud" /\ m.kind = "list" ->
-                /\ CertSet(Line.rcerts) \subseteq iss[m.tgt][m.snd]
+                /\ CertSet(Line.rcerts) \subseteq Own(m.tgt, m.snd)
                 /\ ToSet(Line.rent) \subseteq Ent[m.tgt][m.snd]
           [] m.p = "ud" /\ m.kind = "issue" ->
                 CertSet(Line.rcerts) \subseteq iss'[m.tgt][m.snd]
